@@ -214,12 +214,13 @@ func TestC04Stress(t *testing.T) {
 // ---------------------------------------------------------------- C06 (b): pipelines with long streams under the race detector
 
 type pipeStressCase struct {
-	Topology string `json:"topology"`
-	Length   int    `json:"length"`
-	FanOut   int    `json:"fan_out"`
-	Cap      uint   `json:"cap"`
-	Slow     int    `json:"slow_reader"` // index of a reader that lags (or -1)
-	Burst    int    `json:"burst"`
+	Topology  string `json:"topology"`
+	Length    int    `json:"length"`
+	FanOut    int    `json:"fan_out"`
+	Cap       uint   `json:"cap"`
+	Slow      int    `json:"slow_reader"` // index of a reader that lags (or -1)
+	Burst     int    `json:"burst"`
+	FeedFirst bool   `json:"feed_first,omitempty"`
 }
 
 // countingGroup is a sync.WaitGroup that also counts the registrations
@@ -245,13 +246,28 @@ func genPipeStress(s core.Source) pipeStressCase {
 		c.Length = 50 + s.Choose(3000, "len")
 	}
 	c.Slow = s.Choose(c.FanOut+1, "slow") - 1
+	c.FeedFirst = uint(c.Length) <= c.Cap && s.Choose(2, "feed-first") == 0
 	return c
 }
 
 func execPipeStress(c pipeStressCase, _ core.Source) (res core.Result) {
 	Q := col.Queue[int](lib.Notation())
 	input := Q.MakeWithCapacity(c.Cap)
+	if c.FeedFirst {
+		for v := 1; v <= c.Length; v++ {
+			input.AddValue(v)
+		}
+		input.CloseQueue()
+	}
 	group := &countingGroup{}
+	defer func() {
+		if e := recover(); e != nil {
+			if _, ok := e.(core.HarnessError); ok {
+				panic(e)
+			}
+			res.Violation = core.Violate("C06/stress/panicked", "%+v: building the pipeline panicked: %s", c, lib.Short(e))
+		}
+	}()
 	var outputs []col.QueueLike[int]
 	helpers := 1
 	switch c.Topology {
@@ -298,14 +314,16 @@ func execPipeStress(c pipeStressCase, _ core.Source) (res core.Result) {
 			}
 		}()
 	}
-	readers.Add(1)
-	go func() {
-		defer readers.Done()
-		for v := 1; v <= c.Length; v++ {
-			input.AddValue(v)
-		}
-		input.CloseQueue()
-	}()
+	if !c.FeedFirst {
+		readers.Add(1)
+		go func() {
+			defer readers.Done()
+			for v := 1; v <= c.Length; v++ {
+				input.AddValue(v)
+			}
+			input.CloseQueue()
+		}()
+	}
 	if !withTimeout(120*time.Second, &readers) {
 		res.Violation = core.Violate("C06/stress/stuck", "%+v: feeder or readers did not finish within 120 s", c)
 		return
